@@ -3,7 +3,7 @@
 * This product includes software developed at Datadog (https://www.datadoghq.com/). Copyright 2022 Datadog, Inc.
 **/
 use swc::atoms::JsWord;
-use swc_common::{Span, SyntaxContext, DUMMY_SP};
+use swc_common::{BytePos, Span, SyntaxContext, DUMMY_SP};
 use swc_ecma_ast::*;
 
 const DATADOG_VAR_PREFIX: &str = "__datadog";
@@ -54,6 +54,18 @@ pub fn get_dd_call_expr(
     })
 }
 
+/// The printer maps an opening parenthesis to the start of the span and the closing one to the byte
+/// before its end. The injected parentheses wrap an operation that does not end with a parenthesis
+/// (its last byte may even be the middle of a multi-byte character): both are mapped to the first
+/// byte of the operation.
+pub fn get_dd_paren_span(span: &Span) -> Span {
+    if span.is_dummy() {
+        DUMMY_SP
+    } else {
+        Span::new(span.lo, span.lo + BytePos(1))
+    }
+}
+
 pub fn get_dd_paren_expr(
     expr: &Expr,
     arguments: &[ExprOrSpread],
@@ -69,11 +81,8 @@ pub fn get_dd_paren_expr(
         call
     } else {
         assignations.push(call);
-        // the injected parentheses have no position of their own: the printer maps a closing parenthesis
-        // to the byte before the end of its span, which is not a parenthesis here (and may even be the
-        // middle of a multi-byte character)
         Expr::Paren(ParenExpr {
-            span: DUMMY_SP,
+            span: get_dd_paren_span(span),
             expr: Box::new(Expr::Seq(SeqExpr {
                 span: *span,
                 exprs: assignations
